@@ -61,7 +61,7 @@ def gen_spec(rng, variant, tier):
         n = rng.choice([300, 1200])  # a long span
     sp = {'type': rng.choice(spans.TYPES), 'n': n, 'origin': rng.choice([0, 1, 3, 7])}
     if sp['type'] in spans.ORDERABLE and rng.random() < 0.25:
-        sp['order'] = rng.choice(['desc', 'shuffle'])  # labels that are not in sorted order
+        sp['order'] = rng.choice(['desc', 'shuffle', 'swap'])  # labels that are not in sorted order
     init = {nm: [rng.choice(DYADS) for _ in range(n)] for nm in endo + exo}
     spec = {'kind': 'scripted', 'endo': endo, 'exo': exo, 'check': check, 'lags': lags, 'leads': leads, 'span': sp, 'init': init}
     if rng.random() < 0.15:
@@ -148,6 +148,10 @@ def gen_plan(rng, opts, spec, faults, idx):
             v = [None] * n_endo
             v[jj] = 1.2e308 if kk % 2 == 0 else -1.2e308
             passes[kk] = {'a': 'set', 'v': v}
+    elif rng.random() < 0.03 and n_endo >= 2 and spec.get('_allow_huge', True):
+        # finite values so large that their SUM is not: every one of them is finite, so nothing is wrong with them
+        for kk in range(len(passes)):
+            passes[kk] = {'a': 'set', 'v': [1.0e308 if kk % 2 == 0 or rng.random() < 0.5 else 0.9e308 for _ in range(n_endo)]}
     if rng.random() < 0.12 and passes and n_endo:
         kk = rng.randrange(len(passes))
         passes[kk] = {'a': 'npunder', 'j': rng.randrange(n_endo), 'v': rng.choice(DYADS), 'd': passes[kk].get('d', [0.0] * n_endo)}
